@@ -70,6 +70,10 @@ pub enum Op {
     Drop(H),
     /// the handle is dropped by an unwinding panic that the client contains (catch_unwind)
     DropUnwinding(H),
+    /// hand the k-th join future of this client over to another client (a post box)...
+    JoinGive(u8),
+    /// ... which takes it into its own table (program order and sleeps make sure it is there)
+    JoinTake,
     /// OwningAddr::join().await
     Join(H),
     /// create the join future now, await it with JoinAwait(k)
@@ -152,8 +156,32 @@ fn r_join(r: Option<P>) -> Res {
 /// happen; kept total so that a generator bug shows up in the log instead of a panic).
 const EMPTY: Res = Res::Err(world::ErrKind::NotFound);
 
+thread_local! {
+    /// join futures on their way from one client task to another (`JoinGive` / `JoinTake`)
+    static JOIN_POST: std::cell::RefCell<Vec<JoinFuture<P>>> = const { std::cell::RefCell::new(Vec::new()) };
+}
+
+/// per-execution hygiene
+pub fn reset_post() {
+    JOIN_POST.with(|p| p.borrow_mut().clear());
+}
+
 async fn exec_op(h: &mut Handles, op: Op) -> Res {
     match op {
+        Op::JoinGive(k) => match h.joins.get_mut(k as usize).and_then(Option::take) {
+            Some(f) => {
+                JOIN_POST.with(|p| p.borrow_mut().push(f));
+                Res::Ok
+            }
+            None => EMPTY,
+        },
+        Op::JoinTake => match JOIN_POST.with(|p| p.borrow_mut().pop()) {
+            Some(f) => {
+                h.joins.push(Some(f));
+                Res::Ok
+            }
+            None => EMPTY,
+        },
         Op::Send(t, id) => match t {
             H::Addr(_) => match h.addr_of(t) {
                 Some(a) => r_unit(a.send(Note(id)).await),
